@@ -260,6 +260,12 @@ class _ReusablePoolExecutor(ProcessPoolExecutor):
                 return
 
             self._adjust_process_count()
+            # Wake up the executor manager thread so that it also watches the
+            # sentinels of the newly spawned workers: it would otherwise not
+            # notice the death of one of them before the next submit, and a
+            # later shrink would wait forever for that worker to leave.
+            with self._shutdown_lock:
+                self._executor_manager_thread_wakeup.wakeup()
             processes = list(self._processes.values())
             # Wait for the new workers to be up. Workers that have already
             # exited (idle timeout or crash) are skipped: waiting for them to
